@@ -31,4 +31,18 @@ def gen_cases(engine, rng, tier):
     for _ in range(120 if tier == 'quick' else 3000):
         cfg = 'relay=%s;ip=%s;databytes=0;qq=ok,ok,ok,ok;auth=%s' % (rng.choice(['none', 'none', 'listed']), rng.choice(['v4', 'v6']), rng.choice(['1', '1', '1', '0']))
         out.append(session_gen.case(cfg, session_gen.bounce_session(rng)))
+    # a MAIL that is refused by its handler itself (SIZE above control/databytes: 452, -EDONE) must not open a transaction:
+    # the RCPT / DATA that follow are out of order, also right after a completed transaction
+    for _ in range(80 if tier == 'quick' else 2000):
+        cfg = 'relay=none;ip=%s;databytes=%s;qq=ok,ok,ok,ok' % (rng.choice(['v4', 'v6']), rng.choice(['200', '1000']))
+        ch = [rng.choice([b'HELO c.example.net\r\n', b'EHLO c.example.net\r\n'])]
+        if rng.random() < 0.4:
+            ch += [session_gen.mail(rng, rng.choice(['ok', 'bounce'])), session_gen.rcpt(rng, 'ok'), b'DATA\r\n', session_gen.body(rng)]
+        ch.append(session_gen.mail(rng, 'bigsize'))
+        for _ in range(rng.choice([1, 1, 2])):
+            ch.append(session_gen.rcpt(rng, 'ok'))
+        ch += [b'DATA\r\n', session_gen.body(rng)]
+        if rng.random() < 0.5:
+            ch.append(b'QUIT\r\n')
+        out.append(session_gen.case(cfg, ch))
     return out
